@@ -525,9 +525,11 @@ var yBools = []string{"true", "false", "True", "FALSE"}
 var yNulls = []string{"null", "~", "Null", ""}
 
 var yMulti = []string{"line1\nline2", "line1\nline2\n", "a\n\nb\n", "one two\nthree four\n", "x\ny\nz", "keep\n\n", "para one\npara two", "tail\n\n\n",
-	"# not a comment\nsecond\n", "key: value\n- item\n", "日本\n語\n", "'q'\n\"dq\"\n", "a\n  indented\nb\n"}
+	"# not a comment\nsecond\n", "key: value\n- item\n", "日本\n語\n", "'q'\n\"dq\"\n", "a\n  indented\nb\n",
+	// lines that look like YAML syntax of their own: an alias used as a key, an anchor, a merge, a document marker, a tag
+	"*new: added in this release\nsecond\n", "intro\n*a: b\n&x y: z\n", "<<: *base\nk: v\n", "text\n--- not a marker\n", "!!str: t\n? q\n: r\n"}
 
-var yFoldable = []string{"one two three", "one two three\n", "alpha beta\ngamma delta\n", "w1 w2 w3 w4 w5 w6", "p1 q1\np2 q2", "word\n", "x y"}
+var yFoldable = []string{"*new: added\n", "*a: b c\n*d : e\n", "one two three", "one two three\n", "alpha beta\ngamma delta\n", "w1 w2 w3 w4 w5 w6", "p1 q1\np2 q2", "word\n", "x y"}
 
 func (g *ygen) plainStr(s string) *YN {
 	return &YN{Kind: YScalar, Tag: "!!str", Value: s, Style: "plain"}
@@ -584,6 +586,16 @@ func (g *ygen) scalar(flow bool, root bool) *YN {
 			g.feat["tag:custom"] = true
 		default:
 			n = &YN{Kind: YScalar, Tag: "!!str", Value: "plain text", Style: "plain", Explicit: true}
+		}
+		if r.IntN(4) == 0 && !root {
+			// a tag with nothing behind it: the empty text of that type (the empty STRING for !!str, not a null)
+			if r.IntN(2) == 0 {
+				n = &YN{Kind: YScalar, Tag: "!!str", Value: "", Style: "plain", Explicit: true}
+			} else {
+				n = &YN{Kind: YScalar, Tag: "!unit", Value: "", Style: "plain", Explicit: true}
+				g.feat["tag:custom"] = true
+			}
+			g.feat["tag:explicit_empty"] = true
 		}
 		g.feat["tag:explicit_scalar"] = true
 	case 8, 9:
@@ -840,6 +852,9 @@ func yInlineScalar(n *YN) string {
 func yFlowText(n *YN) string {
 	switch n.Kind {
 	case YScalar, YAlias:
+		if n.Kind == YScalar && n.Explicit && n.Value == "" && n.Style == "plain" {
+			return yInlineScalar(n) + " " // a tag with nothing behind it needs a blank before `,` `]` `}`
+		}
 		return yInlineScalar(n)
 	case YMap:
 		var parts []string
